@@ -10,7 +10,7 @@ from common import R, fl
 
 from common import wiring_pre_build as pre_build  # noqa: E402,F401
 
-LEAN_MODULES = ["PyomaVerif.Props.C11", "PyomaVerif.Mutants.C11", "PyomaVerif.Props.WiringMpe", "PyomaVerif.Props.C11Plscf", "PyomaVerif.Props.C11Stored", "PyomaVerif.Props.WiringClass", "PyomaVerif.Props.WiringCalls"]
+LEAN_MODULES = ["PyomaVerif.Props.C11", "PyomaVerif.Mutants.C11", "PyomaVerif.Props.WiringMpe", "PyomaVerif.Props.C11Plscf", "PyomaVerif.Props.C11Stored", "PyomaVerif.Props.WiringClass", "PyomaVerif.Props.WiringCalls", "PyomaVerif.Props.C11Py", "PyomaVerif.Mutants.C11Py"]
 THEOREMS = [
     # call-site wiring of the class layer, regenerated from /repo on every run (translate_wiring.py)
     "PV.WiringMpe.C11_ssi_mpe_args",
@@ -63,6 +63,29 @@ THEOREMS = [
     # depth round (audit C11 gap 4): extraction from the STORED tables (one mask, C09) returns whole retained poles with their unfiltered values
     "PV.C11Stored.C11_stored_whole",
     "PV.C11Stored.C11_run_extract",
+    # depth round 2 (gap 9): every Python value of `order` (ssiMpePy/plscfMpePy are what the ops run), raw output shapes
+    "PV.C11.C11_py_eq",
+    "PV.C11.C11_plscf_py_eq",
+    "PV.C11.C11_int_order_eq",
+    "PV.C11.C11_neg_order_eq",
+    "PV.C11.C11_int_order_out_of_range",
+    "PV.C11.C11_list_order_eq",
+    "PV.C11.C11_plscf_int_order_eq",
+    "PV.C11.C11_plscf_list_order_eq",
+    "PV.C11.C11_other_order_raises",
+    "PV.C11.C11_plscf_other_order_raises",
+    "PV.C11.C11_plscf_other_order_empty",
+    "PV.C11.C11_bool_order_not_ok",
+    "PV.C11.C11_py_whole",
+    "PV.C11.C11_py_error_iff",
+    "PV.C11.C11_plscf_py_whole",
+    "PV.C11.C11_plscf_error_iff",
+    "PV.C11.C11_shapes",
+    "PV.C11.C11_plscf_shapes",
+    "PV.C11.C11_plscf_shapes_all",
+    "PV.C11.Mutants.no_reshape_find_min_2d",
+    "PV.C11.Mutants.no_reshape_explicit_same",
+    "PV.C11.Mutants.no_raise_mutant_returns",
 ]
 RULE = (
     "correspondence: ssi.SSI_mpe / plscf.pLSCF_mpe vs Mpe.ssiMpe / Mpe.plscfMpe on random pole tables (<= 10x10, values on a "
@@ -75,12 +98,19 @@ RULE = (
     "(function, order form, rows, cols, #requests, outcome). find_min in depth: pLSCF_mpe[find_min-lab7] = the same generator with "
     "the stable poles labelled 7 (the label the pinned routine selects; 1..4 columns so that the never-tested last column and the "
     "index wrap occur), SSI_mpe/pLSCF_mpe[find_min-dup] = stable poles duplicated at exactly equal frequency in another row, "
-    "[find_min-witness] = the kernel-checked witness tables of Mutants/C11.lean run on the real functions"
+    "[find_min-witness] = the kernel-checked witness tables of Mutants/C11.lean run on the real functions. "
+    "The ops run ssiMpePy / plscfMpePy (Model/MpePy.lean: the Python object passed as order) and return np.shape of the assembled "
+    "arrays (ssiShapes / plscfShapes), compared in every stream with the raw np.shape of what the functions return / the classes "
+    "store BEFORE any flattening; [order-kinds] = order in {None, np.int64, True, False, float, tuple, other str, negative int, "
+    "int below -cols, lists with negative / out-of-range entries}, 12% empty request lists, 10% all-NaN tables: exception class, "
+    "order_out, values, shapes identical (order=True selecting a row block is outside the model: skipped and counted)"
 )
 EXTRA_TRUSTED = ["float rounding in np.isclose / band edges (poles within 1e-9 of an edge are not judged)"]
 ASSUMPTIONS = [
     "numpy nanargmin/isclose/unique/where semantics are mirrored by NanTable (validated by the correspondence)",
-    "orders are non-negative column indices (negative Python indices not modelled)",
+    "order=True when numpy's boolean-scalar index lets the call get past its first request returns a (1, cols) row block per request: "
+    "not modelled (Model/MpePy.boolFirst marks it, the correspondence skips and counts it); lists whose entries are not Python ints "
+    "(bool, np.int64) are not generated",
     "'within tolerance' for find_min = inside the band the routine uses (SSI: [f-rtol, f+rtol]; pLSCF: (f-deltaf, f+deltaf)) and np.isclose(pole, f, rtol)",
     "SSI find_min: 'exactly one stable pole' is proved (and coded) as 'exactly one distinct stable frequency value'; stable poles of exactly "
     "equal frequency count once and the first row is returned (C11_find_min_value_set_only, C11_find_min_from_order_first, "
@@ -239,7 +269,13 @@ def norm_out(res, with_cov):
         oo = {"arr": [int(v) for v in order_out.tolist()]}
     else:
         oo = int(order_out)
+    # np.shape of the arrays exactly as returned / stored, taken BEFORE the flattening below (compared with the model's
+    # ssiShapes / plscfShapes in same_out)
+    shapes = {"fn": list(np.shape(Fn)), "xi": list(np.shape(Xi)), "phi": list(np.shape(Phi))}
+    if with_cov and res[4] is not None:
+        shapes.update({"fn_cov": list(np.shape(res[4])), "xi_cov": list(np.shape(res[5])), "phi_cov": list(np.shape(res[6]))})
     out = {
+        "shapes": shapes,
         "fn": [float(v) for v in np.asarray(Fn).reshape(-1)],
         "xi": [float(v) for v in np.asarray(Xi).reshape(-1)],
         "phi": [[complex(z) for z in m] for m in _phi_modes(Phi)],
@@ -278,11 +314,23 @@ def call_plscf(case):
         return {"exc": type(e).__name__}
 
 
+def order_json(order):
+    """the Python object passed as `order`, for the driver: "find_min" / another str, bool, int, list of int stay themselves;
+    anything else (None, np.int64, float, tuple, ...) travels as {"other": <type name>} (PyOrder.other)"""
+    if isinstance(order, (str, bool)):
+        return order
+    if type(order) is int:
+        return order
+    if type(order) is list and all(type(o) is int for o in order):
+        return list(order)
+    return {"other": type(order).__name__}
+
+
 def model_inp(case, which):
     Phi = case["Phi"]
     inp = {
         "freq": [R(float(f)) for f in case["freq"]], "Fn": omat(case["Fn"]), "Xi": omat(case["Xi"]), "Phi": ophi(Phi), "d": int(Phi.shape[2]),
-        "order": case["order"], "Lab": None if case["Lab"] is None else case["Lab"].tolist(), "rtol": R(case["rtol"]),
+        "order": order_json(case["order"]), "Lab": None if case["Lab"] is None else case["Lab"].tolist(), "rtol": R(case["rtol"]),
     }
     if which == "plscf":
         inp["deltaf"] = R(case["deltaf"])
@@ -307,6 +355,8 @@ def same_out(model, impl):
     if "exc" in model or "exc" in impl:
         return model.get("exc") == impl.get("exc")
     if model["order_out"] != impl["order_out"]:
+        return False
+    if "shapes" in model and "shapes" in impl and model["shapes"] != impl["shapes"]:
         return False
     for k in ("fn", "xi", "fn_cov", "xi_cov"):
         if len(model[k]) != len(impl[k]) or not all(_feq(fl(a), b) for a, b in zip(model[k], impl[k])):
@@ -430,13 +480,91 @@ def corr_find_min_depth(ctx):
         ctx.count("corr_witness_" + name)
 
 
+# ----------------------------------------------------------------------------- every Python value of `order`
+def odd_order(rng, cols, nreq):
+    """(tag, order): values of `order` outside int >= 0 / list of them / 'find_min'"""
+    k = rng.randrange(12)
+    if k == 0:
+        return "None", None
+    if k == 1:
+        return "np.int64", np.int64(rng.randrange(cols))
+    if k == 2:
+        return "True", True
+    if k == 3:
+        return "False", False
+    if k in (4, 5):
+        return "neg-int", -rng.randint(1, cols)
+    if k == 6:
+        return "neg-int-out-of-range", -cols - rng.randint(1, 2)
+    if k == 7:
+        return "float", float(rng.randrange(cols))
+    if k == 8:
+        return "tuple", tuple(rng.randrange(cols) for _ in range(nreq))
+    if k == 9:
+        return "str", rng.choice(["findmin", "find_min ", "min", ""])
+    if k == 10:
+        return "neg-list", [rng.randint(-cols, cols - 1) for _ in range(nreq)]
+    o = [rng.randint(-cols, cols - 1) for _ in range(nreq)]
+    if o:
+        o[rng.randrange(len(o))] = -cols - rng.randint(1, 2)
+    return "neg-list-out-of-range", o
+
+
+def corr_order_kinds(ctx):
+    """SSI_mpe / pLSCF_mpe vs ssiMpePy / plscfMpePy on every kind of Python object passed as `order`:
+    exception class, order_out, values and raw shapes"""
+    for _ in range(ctx.n(500, 5000)):
+        case = gen_case(ctx, maxr=6, maxc=6)
+        rows, cols, d = case["Phi"].shape
+        if ctx.rng.random() < 0.12:
+            case["freq"] = []
+        if ctx.rng.random() < 0.1:
+            case["Fn"][:, :] = np.nan      # order=True then meets an all-NaN table
+        tag, order = odd_order(ctx.rng, cols, len(case["freq"]))
+        case["order"] = order
+        case["kind"] = tag
+        for which, call, op, w in (("ssi", call_ssi, "ssi_mpe", case["rtol"]), ("plscf", call_plscf, "plscf_mpe", case["deltaf"])):
+            if near_edge(case, w):
+                ctx.skipped += 1
+                ctx.count("corr_skipped_near_edge")
+                continue
+            inp = model_inp(case, which)
+            impl = call(case)
+            model = ctx.model(op, **inp)
+            if str(model.get("exc", "")).startswith("unmodelled"):
+                ctx.skipped += 1
+                ctx.count(f"corr_{which}_order_{tag}_unmodelled_row_block")
+                continue
+            fn = f"{'SSI_mpe' if which == 'ssi' else 'pLSCF_mpe'}[order-kinds]"
+            ctx.corr(fn, same_out(model, impl), inp, model, impl, (tag, rows, cols, len(case["freq"]), outcome(impl)))
+            ctx.count(f"corr_{which}_order_{tag}_{outcome(impl) if 'exc' in impl else ('found' if impl['fn'] else 'nothing')}")
+
+
 # ----------------------------------------------------------------------------- class level
 _RUNS = {}
 
 
+def _sim(rng, g, N, fs, nch, freqs):
+    """noise + a few lightly damped modes with random real shapes over nch channels"""
+    t = np.arange(N) / fs
+    y = 0.02 * g.standard_normal((N, nch))
+    for f, xi, shape in freqs:
+        w = 2 * np.pi * f
+        h = np.exp(-xi * w * t) * np.sin(w * np.sqrt(1 - xi**2) * t)
+        y += np.outer(np.convolve(g.standard_normal(N), h)[:N], shape)
+    return y
+
+
+RUN_KINDS = ["SSIcov", "pLSCF", "SSIcov_unc", "SSIcov_MS", "pLSCF_MS", "SSIdat_MS"]
+
+
 def real_runs(ctx, n):
-    """a few real identifications (cached per process): list of (kind, alg, setup)"""
+    """a few real identifications (cached per process): list of (kind, alg, setup); single-setup classes on SingleSetup, the
+    _MS classes (which inherit mpe) on MultiSetup_PreGER with 2-3 setups sharing their reference channels"""
     from pyoma2.algorithms import SSIcov, pLSCF
+    from pyoma2.algorithms.plscf import pLSCF_MS
+    from pyoma2.algorithms.ssi import SSIcov_MS, SSIdat_MS
+    from pyoma2.setup.multi import MultiSetup_PreGER
     from pyoma2.setup.single import SingleSetup
 
     key = (ctx.seed, n)
@@ -448,31 +576,48 @@ def real_runs(ctx, n):
     for k in range(n):
         fs = 50.0
         N = 2500
-        t = np.arange(N) / fs
-        nch = rng.randint(2, 4)
-        y = 0.02 * g.standard_normal((N, nch))
-        for f in sorted(rng.sample([1.5, 3.2, 5.0, 7.7, 11.0], rng.randint(1, 3))):
-            xi = rng.uniform(0.005, 0.02)
-            w = 2 * np.pi * f
-            h = np.exp(-xi * w * t) * np.sin(w * np.sqrt(1 - xi**2) * t)
-            y += np.outer(np.convolve(g.standard_normal(N), h)[:N], g.standard_normal(nch))
-        kind = ["SSIcov", "pLSCF", "SSIcov_unc"][k % 3]
+        kind = RUN_KINDS[k % len(RUN_KINDS)]
         ordmax = rng.randint(8, 14)
+        modes = [(f, rng.uniform(0.005, 0.02)) for f in sorted(rng.sample([1.5, 3.2, 5.0, 7.7, 11.0], rng.randint(1, 3)))]
+        hc = {"conj": True, "xi_max": 0.2, "mpc_lim": 0.3, "mpd_lim": 0.9}
         try:
-            ss = SingleSetup(y, fs)
-            if kind == "pLSCF":
-                alg = pLSCF(name="x", ordmax=ordmax, nxseg=256, hc={"conj": True, "xi_max": 0.2, "mpc_lim": 0.3, "mpd_lim": 0.9})
-            elif kind == "SSIcov":
-                alg = SSIcov(name="x", br=ordmax // nch + 3, ordmax=ordmax, step=1)
+            if kind.endswith("_MS"):
+                nref = rng.randint(1, 2)
+                nmov = [rng.randint(1, 2) for _ in range(rng.randint(2, 3))]
+                ntot = nref + sum(nmov)
+                shapes = [g.standard_normal(ntot) for _ in modes]
+                datasets = []
+                pos = nref
+                for m in nmov:
+                    chans = list(range(nref)) + list(range(pos, pos + m))
+                    pos += m
+                    datasets.append(_sim(rng, g, N, fs, len(chans), [(f, xi, sh[chans]) for (f, xi), sh in zip(modes, shapes)]))
+                ss = MultiSetup_PreGER(fs=fs, ref_ind=[list(range(nref)) for _ in nmov], datasets=datasets)
+                nch = ntot
+                if kind == "pLSCF_MS":
+                    alg = pLSCF_MS(name="x", ordmax=ordmax, nxseg=256, hc=hc)
+                elif kind == "SSIcov_MS":
+                    alg = SSIcov_MS(name="x", br=ordmax // nref + 3, ordmax=ordmax, step=1)
+                else:
+                    alg = SSIdat_MS(name="x", br=ordmax // nref + 3, ordmax=ordmax, step=1)
             else:
-                alg = SSIcov(name="x", br=ordmax // nch + 3, ordmax=ordmax, step=1, calc_unc=True, nb=20)
+                nch = rng.randint(2, 4)
+                y = _sim(rng, g, N, fs, nch, [(f, xi, g.standard_normal(nch)) for (f, xi) in modes])
+                ss = SingleSetup(y, fs)
+                if kind == "pLSCF":
+                    alg = pLSCF(name="x", ordmax=ordmax, nxseg=256, hc=hc)
+                elif kind == "SSIcov":
+                    alg = SSIcov(name="x", br=ordmax // nch + 3, ordmax=ordmax, step=1)
+                else:
+                    alg = SSIcov(name="x", br=ordmax // nch + 3, ordmax=ordmax, step=1, calc_unc=True, nb=20)
             ss.add_algorithms(alg)
             with np.errstate(all="ignore"):
                 ss.run_by_name("x")
             out.append((kind, alg, ss))
+            ctx.count("real_run_ok_" + kind)
         except Exception as e:  # noqa: BLE001
             ctx.skipped += 1
-            ctx.count("real_run_failed_" + type(e).__name__)
+            ctx.count("real_run_failed_" + kind + "_" + type(e).__name__)
     _RUNS[key] = out
     return out
 
@@ -507,6 +652,8 @@ def class_case(ctx, kind, alg):
         order = [rng.choice(okcols) for _ in freq]
     else:
         order = "find_min"
+    if form != "find_min" and rng.random() < 0.25:  # the same columns counted from the end (Python ints)
+        order = order - cols if form == "int" else [o - cols if rng.random() < 0.6 else o for o in order]
     return {"freq": freq, "order": order, "rtol": rtol, "kind": form}
 
 
@@ -516,7 +663,7 @@ def run_class(kind, alg, ss, cc):
         with np.errstate(all="ignore"):
             ss.mpe("x", sel_freq=list(cc["freq"]), order=cc["order"], rtol=cc["rtol"])
         r = alg.result
-        if kind == "pLSCF":
+        if kind.startswith("pLSCF"):
             return norm_out((r.Fn, r.Xi, r.Phi, r.order_out), False)
         return norm_out((r.Fn, r.Xi, r.Phi, r.order_out, r.Fn_cov, r.Xi_cov, r.Phi_cov), True)
     except Exception as e:  # noqa: BLE001
@@ -526,7 +673,7 @@ def run_class(kind, alg, ss, cc):
 def case_of_result(kind, alg, cc):
     r = alg.result
     cov = None
-    if kind != "pLSCF" and r.Fn_poles_cov is not None:
+    if not kind.startswith("pLSCF") and r.Fn_poles_cov is not None:
         cov = {"fn": np.asarray(r.Fn_poles_cov, float), "xi": np.asarray(r.Xi_poles_cov, float), "phi": np.asarray(r.Phi_poles_cov, float)}
     return {"freq": cc["freq"], "Fn": np.asarray(r.Fn_poles, float), "Xi": np.asarray(r.Xi_poles, float), "Phi": np.asarray(r.Phi_poles, complex),
             "Lab": np.asarray(r.Lab), "order": cc["order"], "rtol": cc["rtol"], "deltaf": 0.05, "cov": cov, "kind": cc["kind"]}
@@ -552,12 +699,15 @@ def correspondence(ctx):
             fn = f"{'SSI_mpe' if which == 'ssi' else 'pLSCF_mpe'}[{case['kind']}]"
             ctx.corr(fn, ok, inp, model, impl, (rows, cols, len(case["freq"]), outcome(impl)))
             ctx.count(f"corr_{which}_{case['kind']}_{outcome(impl) if 'exc' in impl else ('found' if impl['fn'] else 'nothing')}")
+            if "exc" not in impl:
+                ctx.count(f"corr_shape_{which}_{case['kind']}_fn{len(impl['shapes']['fn'])}d_phi{len(impl['shapes']['phi'])}d" + ("_cov" if "fn_cov" in impl["shapes"] else ""))
         if k == 0:
             ctx.sample({"freq": case["freq"], "order": case["order"], "rtol": case["rtol"], "rows": rows, "cols": cols,
                         "Fn_col0": case["Fn"][:, 0].tolist()})
     corr_find_min_depth(ctx)
+    corr_order_kinds(ctx)
     # through the classes: stored fields == function outputs == model
-    for (kind, alg, ss) in real_runs(ctx, ctx.n(6, 15)):
+    for (kind, alg, ss) in real_runs(ctx, ctx.n(6, 18)):
         for _ in range(ctx.n(15, 60)):
             cc = class_case(ctx, kind, alg)
             if cc is None:
@@ -565,17 +715,15 @@ def correspondence(ctx):
                 continue
             stored = run_class(kind, alg, ss, cc)
             case = case_of_result(kind, alg, cc)
-            which = "plscf" if kind == "pLSCF" else "ssi"
+            which = "plscf" if kind.startswith("pLSCF") else "ssi"
             direct = call_plscf(case) if which == "plscf" else call_ssi(case)
-            if kind == "pLSCF" and "exc" not in stored:
-                pass
             same_fields = stored == direct or (repr(stored) == repr(direct))
             if near_edge(case, case["rtol"] if which == "ssi" else 0.05):
                 ctx.skipped += 1
                 continue
             model = ctx.model("plscf_mpe" if which == "plscf" else "ssi_mpe", **model_inp(case, which))
             ok = same_fields and same_out(model, stored)
-            ctx.corr(f"{kind.split('_')[0]}.mpe[{cc['kind']}]", ok, {"kind": kind, "freq": cc["freq"], "order": cc["order"], "rtol": cc["rtol"]},
+            ctx.corr(f"{kind[:-4] if kind.endswith('_unc') else kind}.mpe[{cc['kind']}]", ok, {"kind": kind, "freq": cc["freq"], "order": cc["order"], "rtol": cc["rtol"]},
                      model, {"stored": repr(stored)[:1500], "direct": repr(direct)[:1500]}, (kind, cc["kind"], outcome(stored)))
             ctx.count(f"corr_class_{kind}_{cc['kind']}")
 
@@ -747,8 +895,21 @@ def oracle(ctx, scale):
         g_pl = call_plscf(case)
         judge(ctx, "pLSCF_mpe", case, g_pl, False, case["deltaf"], False)
         ctx.nontrivial.add(("oracle", case["kind"], rows, cols, len(case["freq"]), outcome(g_ssi), outcome(g_pl)))
+    # explicit orders given as negative Python ints (-1 = the highest order): the same statement, columns counted from the end
+    for _ in range(ctx.n(300, 3000) * scale):
+        case = gen_case(ctx)
+        if case["kind"] == "find_min":
+            continue
+        cols = case["Fn"].shape[1]
+        if case["kind"] == "int":
+            case["order"] = case["order"] - cols
+        else:
+            case["order"] = [o - cols if ctx.rng.random() < 0.7 else o for o in case["order"]]
+        judge(ctx, "SSI_mpe", case, call_ssi(case), True, case["rtol"], True)
+        judge(ctx, "pLSCF_mpe", case, call_plscf(case), False, case["deltaf"], False)
+        ctx.count(f"oracle_negative_order_{case['kind']}")
     if scale == 1:
-        for (kind, alg, ss) in real_runs(ctx, ctx.n(6, 15)):
+        for (kind, alg, ss) in real_runs(ctx, ctx.n(6, 18)):
             for _ in range(ctx.n(20, 80)):
                 cc = class_case(ctx, kind, alg)
                 if cc is None:
@@ -756,8 +917,9 @@ def oracle(ctx, scale):
                     continue
                 stored = run_class(kind, alg, ss, cc)
                 case = case_of_result(kind, alg, cc)
-                nm = "pLSCF.mpe" if kind == "pLSCF" else "SSIcov.mpe"
-                if kind == "pLSCF":
+                # the _MS classes inherit mpe (C11_mpe_inherited): judged under the name of the class that defines it
+                nm = "pLSCF.mpe" if kind.startswith("pLSCF") else "SSIcov.mpe"
+                if kind.startswith("pLSCF"):
                     judge(ctx, nm, case, stored, False, 0.05, False)
                 else:
                     judge(ctx, nm, case, stored, True, cc["rtol"], True)
